@@ -225,7 +225,8 @@ int EGLPNUM_TYPENAME_ILLadd_error_to_memory (
 CLEANUP:
 	if (rval)
 	{
-		EGLPNUM_TYPENAME_ILLformat_error_delete (e);
+		if (e)
+			EGLPNUM_TYPENAME_ILLformat_error_delete (e);
 		ILL_IFFREE(e);
 	}
 	return rval;
